@@ -244,8 +244,11 @@ def run(ctx):
         "explanation": "Proved for ALL token lists (Props/C05.v): one-to-one correspondence between Type/Procedure declarations and "
                        "proc/type keywords (resynchronisation), gapless tiling of the token vector by the declarations, locality of "
                        "each declaration's parse (nothing behind the next proc/type/Eof token influences it, hence no influence on "
-                       "declarations in front of a damage). Validated by the exhaustive per-program damage campaign, not proved: "
-                       "shift-invariance for the declarations behind the damage, table entries, position of diagnostics.",
+                       "declarations in front of a damage), shift-invariance of everything behind a declaration boundary, "
+                       "containment of trees, diagnostics and symbol-table entries (C05_containment, C05_errors_contained, "
+                       "C05_table_contained) whenever the damage ends at a declaration boundary of both parses. Decided by the exhaustive "
+                       "per-program damage campaign: that concrete single-token damages do end at such a boundary, and the positions of the "
+                       "diagnostics of the damaged declaration itself.",
     })
     ctx.level = "other"
     if ctx.thorough() and proved:
